@@ -15,7 +15,9 @@
              'reflect.Value.Call / Type.In / Type.Elem / AssignableTo are modelled over an abstract type '
              'universe (Model/Safety.v section 1)',
              'the readers themselves (hierarchy reader, stream readers, csv/fixed-length, EDI) are modelled '
-             'under C04..C07; read_terminates_bound takes their progress property as a Section hypothesis',
+             'under C04..C07; read_terminates_bound takes their progress property as a Section hypothesis; '
+             'hier_reads_bound / edi_reads_bound are closed instances over C05\'s machine = specification theorems '
+             '(Proofs/HierTerm.v), inheriting C05\'s trusted base and, for EDI, its guard no_root_repeat (F14)',
              'Gen/Safety.v: isValidDelimiter of csv and csv2 (and whether validateFileDecl applies it), '
              'JSON-schema bounds, and whether each of the five ValidateSchema returns the json.Unmarshal error, '
              'extracted on every run',
